@@ -109,14 +109,27 @@ class Contexts:
         return f
 
     def ev(self, formula, v, extra=None):
-        f = self.facts(v)
-        for t in EVENT_TYPES:
-            k = ("eq", "'%s'" % t, "self.next_event_type")
-            if t in self.prod and v not in self.prod[t]:
-                f[k] = False
+        ek = tuple(sorted(extra.items())) if extra else None
+        mk = (formula, v, ek)
+        memo = self.__dict__.setdefault("_memo", {})
+        if mk in memo:
+            return memo[mk]
+        fk = (v, len(self.prod.get("renege", ())), len(self.prod.get("class_change", ())))
+        fc = self.__dict__.setdefault("_fcache", {})
+        if fk not in fc:
+            f = self.facts(v)
+            for t in EVENT_TYPES:
+                k = ("eq", "'%s'" % t, "self.next_event_type")
+                if t in self.prod and v not in self.prod[t]:
+                    f[k] = False
+            fc[fk] = f
+        f = fc[fk]
         if extra:
+            f = dict(f)
             f.update(extra)
-        return guards.ev(formula, f)
+        r = guards.ev(formula, f)
+        memo[mk] = r
+        return r
 
     def pc_possible(self, events, upto, v, extra=None):
         """can the guard events before `upto` all hold under valuation v? (unknown atoms may go either way)"""
